@@ -13,6 +13,7 @@ import (
 	"github.com/anacrolix/dht/v2/krpc"
 
 	"verifharness/benc"
+	"verifharness/census"
 	"verifharness/evid"
 	"verifharness/gen"
 	"verifharness/srv"
@@ -277,6 +278,12 @@ func c07(c *evid.Ctx) {
 			}
 		}
 		if err := srv.QuiesceAll(nodes[:ns], srv.PendingQueryOK, 60*time.Second); err != nil {
+			// Something other than an open query is still around a minute after the last datagram.
+			stuck := census.Stuck(func(g census.G) bool { return census.ServeLoop(g) || srv.PendingQueryOK(g) }, time.Second)
+			if len(stuck) > 0 {
+				c.Violation("reply-handling-left-a-goroutine-blocked", fmt.Sprintf("after every datagram of round %d was handled, %d library goroutines stay parked (a reply was handed to a query that no longer takes it):\n%s", round, len(stuck), truncateS(census.Dump(stuck), 4000)), nil)
+				return
+			}
 			c.Inconclusive(err.Error())
 			return
 		}
